@@ -7,8 +7,11 @@ import Std.Data.HashSet
 
 Reads one program per line on stdin and prints one line per input line.
 
-Input line: `[ceil=N] [budget=N] [h=a,b,…] : prog₀ | prog₁ | …` (the part before `:` is
-optional).  Thread `i` starts with `h[i]` handles (default 1) to one shared buffer and runs
+Input line: `[ceil=N] [budget=N] [h=a,b,…] [refs=b>l,…] : prog₀ | prog₁ | …` (the part before
+`:` is optional).  `refs=1>0,2>0`: threads 1 and 2 start with a shared reference (`&handle`) to a
+handle of thread 0; they use it with `cloneref readref countref`; thread 0 takes the references
+back with `join`, which waits for the borrowers' programs to finish (`thread::scope`), and
+until then can itself only use `read clone count`.  Thread `i` starts with `h[i]` handles (default 1) to one shared buffer and runs
 `progᵢ`, a space separated list of `read clone drop mutate unwrap count send:<u> recv`.
 An action of a thread that holds no handle is skipped (result `9`).  `send:<u>` is an
 asynchronous channel send (never blocks): the handle travels through a hidden relay thread
@@ -21,7 +24,7 @@ and every (spurious) CAS failure, with a visited set, bounded by `budget` states
 (default 1000000).  Exploration does not continue below a state with `race`, a double free,
 a use after free or a stored count above the ceiling while handles exist.
 
-Output line: `states=… transitions=… complete=true|false verdict=ok|race|double-free|use-after-free|count-overflow
+Output line: `states=… transitions=… complete=true|false verdict=ok|race|double-free|use-after-free|count-overflow|count-mismatch
 outcomes=<o> <o> …[ trace=<labels>]` where an outcome is
 `0:<results of thread 0>/1:<…>/freed=<n>/pval=<n>` (sorted, results as in `Model.Conc.finish`)
 and the trace is the first offending schedule found (`s<t>.<action>` start, `m<t>.<choice>`
@@ -38,8 +41,13 @@ namespace HipVerif.Driver.Conc
 /-- Driver-level program actions. -/
 inductive Act where
   | act (a : Action)
+  /-- a `&self` action through a borrowed reference (skipped when no reference is held) -/
+  | ref (a : Action)
   | send (u : Nat)
   | recv
+  /-- wait until every thread holding a reference to this thread has finished its program,
+  then take the references back (`thread::scope` end / join) -/
+  | join
   deriving DecidableEq, Hashable, Repr
 
 structure Node where
@@ -62,6 +70,10 @@ def parseAct (w : String) : Option Act :=
   | "unwrap" => some (.act .unwrap)
   | "count" => some (.act .count)
   | "recv" => some .recv
+  | "join" => some .join
+  | "cloneref" => some (.ref .clone)
+  | "readref" => some (.ref .read)
+  | "countref" => some (.ref .count)
   | _ =>
     match w.splitOn ":" with
     | ["send", u] => u.toNat?.map .send
@@ -81,6 +93,8 @@ structure Opts where
   ceil : Nat := 1000000
   budget : Nat := 1000000
   hs : Option (List Nat) := none
+  /-- initial references: (borrower, lender) -/
+  refs : List (Nat × Nat) := []
 
 def parseOpts (s : String) : Option Opts :=
   (words s).foldlM (init := ({} : Opts)) fun o w =>
@@ -88,6 +102,12 @@ def parseOpts (s : String) : Option Opts :=
     | ["ceil", v] => v.toNat?.map fun n => { o with ceil := n }
     | ["budget", v] => v.toNat?.map fun n => { o with budget := n }
     | ["h", v] => ((v.splitOn ",").mapM String.toNat?).map fun l => { o with hs := some l }
+    | ["refs", v] =>
+      ((v.splitOn ",").mapM fun (e : String) => match e.splitOn ">" with
+        | [a, b] => match a.toNat?, b.toNat? with
+          | some a, some b => some (a, b)
+          | _, _ => none
+        | _ => none).map fun l => { o with refs := l }
     | _ => none
 
 def popProg (progs : List (List Act)) (t : Nat) : List (List Act) :=
@@ -122,6 +142,21 @@ def successors (c : Cfg) (n : Node) : List (String × Node) := Id.run do
             match step c n.s (.start t a) with
             | some s' => out := (s!"s{t}.{actName a}", { n with s := s', progs := popProg n.progs t }) :: out
             | none => pure ()
+        | some (.ref a) =>
+          if th.refs.isEmpty then
+            out := (s!"s{t}.skip", { n with s := skipAct n.s t, progs := popProg n.progs t }) :: out
+          else
+            match step c n.s (.start t a) with
+            | some s' => out := (s!"s{t}.{actName a}ref", { n with s := s', progs := popProg n.progs t }) :: out
+            | none => pure ()
+        | some .join =>
+          let borrowers := (List.range nthr).filter fun w =>
+            w != t && ((n.s.thr[w]?.map (·.refs.contains t)).getD false)
+          let done := borrowers.all fun w =>
+            (n.progs[w]?.getD []).isEmpty && ((n.s.thr[w]?.map (·.pc.isNone)).getD true)
+          if done && th.pc.isNone then
+            let s' := borrowers.foldl (fun acc w => (step c acc (.unborrow w t)).getD acc) n.s
+            out := (s!"j{t}", { n with s := s', progs := popProg n.progs t }) :: out
         | some (.send u) =>
           if th.handles == 0 then
             out := (s!"s{t}.skip", { n with s := skipAct n.s t, progs := popProg n.progs t }) :: out
@@ -148,14 +183,24 @@ def fmtOutcome (nprog : Nat) (s : State) : String :=
     s!"{t}:" ++ ",".intercalate (((s.thr[t]?.map (·.res)).getD []).map toString)
   "/".intercalate (per ++ [s!"freed={s.freed}", s!"pval={s.pval}"])
 
+/-- Live handles: those held by the threads plus those in flight (a `clone` whose increment
+has happened, a `drop` whose decrement has not); same definition as `total` in the proofs. -/
+def liveHandles (s : State) : Nat :=
+  (s.thr.map fun th => th.handles + match th.pc with
+    | some ⟨.clone, code, _⟩ => if localRet code == some .done then 1 else 0
+    | some ⟨.drop, code, _⟩ => if (localRet code).isNone then 1 else 0
+    | _ => 0).sum
+
 /-- `none` = fine, otherwise the kind of violation.  `count-overflow` is the executable face of
 `count_tracks`: the stored count exceeds the ceiling while some thread still holds a handle
-(on a correct protocol the count only passes the ceiling by wrapping at the very last drop). -/
+(on a correct protocol the count only passes the ceiling by wrapping at the very last drop);
+`count-mismatch`: the stored count is not `live handles - 1` (a lost or duplicated update). -/
 def violation (ceil : Nat) (s : State) : Option String :=
   if s.freed ≥ 2 then some "double-free"
   else if s.uaf then some "use-after-free"
   else if s.race then some "race"
   else if s.last.val > ceil && s.thr.any (fun th => th.handles > 0) then some "count-overflow"
+  else if liveHandles s ≥ 1 && s.last.val + 1 != liveHandles s then some "count-mismatch"
   else none
 
 structure Result where
@@ -208,8 +253,14 @@ def runLine (line : String) : String :=
   if line == "proto" then toString (repr HipVerif.Gen.Atomics.proto).pretty.length ++ " " ++
       ((toString (repr HipVerif.Gen.Atomics.proto)).replace "\n" " ") else
   if line == "obligations" then
-    " ".intercalate ((obligations HipVerif.Gen.Atomics.proto HipVerif.Gen.Atomics.one).map
-      fun (n, b) => s!"{n}={b}") else
+    let sites := (HipVerif.Gen.Atomics.rowSites.map fun (m, locs) =>
+      let code := match m with
+        | "decr" => HipVerif.Gen.Atomics.decr | "incr" => HipVerif.Gen.Atomics.incr
+        | "isUnique" => HipVerif.Gen.Atomics.isUnique | _ => HipVerif.Gen.Atomics.get
+      (storeSites code locs).map fun l => s!"{m}@{l}").flatten
+    " ".intercalate (((obligations HipVerif.Gen.Atomics.proto HipVerif.Gen.Atomics.one).map
+      fun (n, b) => s!"{n}={b}") ++
+      [s!"plain_store_sites={if sites.isEmpty then "-" else ",".intercalate sites}"]) else
   let (optS, progS) := match line.splitOn ":" with
     | [p] => ("", p)
     | o :: rest => if o.contains '=' || o.trimAscii.toString == "" then (o, ":".intercalate rest) else ("", line)
@@ -221,8 +272,9 @@ def runLine (line : String) : String :=
     if hs.sum = 0 || hs.sum > o.ceil + 1 then "error bad-shares" else
     let c : Cfg := { ceil := o.ceil, proto := HipVerif.Gen.Atomics.proto }
     let nsend := (progs.map fun p => p.countP fun a => match a with | .send _ => true | _ => false).sum
-    let r := search c o.budget
-      { s := init (hs ++ List.replicate nsend 0), progs := progs, relay := progs.length }
+    let s0 := o.refs.foldl (fun acc (p : Nat × Nat) => (step c acc (.borrow p.1 p.2)).getD acc)
+      (init (hs ++ List.replicate nsend 0))
+    let r := search c o.budget { s := s0, progs := progs, relay := progs.length }
     let verdict := match r.bad with | some (k, _) => k | none => "ok"
     let base := s!"states={r.states} transitions={r.transitions} complete={r.complete} verdict={verdict} outcomes=" ++
       " ".intercalate (sortStrings r.outcomes)
